@@ -447,6 +447,7 @@ func (m *Mux) serveHTTP(w http.ResponseWriter, r *http.Request) error {
 			method:  method,
 			params:  params,
 			maxRecv: m.opts.maxReceiveMessageSize,
+			stats:   m.opts.statsHandler,
 		}
 		herr := hd.handler(&m.opts, stream)
 
